@@ -104,7 +104,7 @@ def code_of(res, name):
 # reference model
 #
 class MMsg:
-    __slots__ = ("uid", "tok", "flags", "date", "born")
+    __slots__ = ("uid", "tok", "flags", "date", "born", "amb", "mh_amb")
 
     def __init__(self, uid, tok, flags, date):
         self.uid = uid
@@ -112,6 +112,8 @@ class MMsg:
         self.flags = frozenset(flags)
         self.date = date
         self.born = None
+        self.amb = False  # split delivery: \\Seen depends on when asimap looked
+        self.mh_amb = False
 
 
 class MBox:
@@ -646,6 +648,12 @@ class Interp:
                 m.uid = g["uid"]
                 self.C("c13_fresh_uid")
             self.C("c04_flags")
+            if m.amb:
+                m.amb = False
+                if (m.flags ^ g["flags"]) == {"\\seen"}:
+                    # asimap looked between the agent's two steps: legitimate
+                    self.ctx.probe("split_delivery_observed_midway")
+                    m.flags = g["flags"]
             if m.flags != g["flags"]:
                 self.V(
                     "C04", "flags_diverge", mailbox=box.name, uid=g["uid"], tok=m.tok,
@@ -686,6 +694,8 @@ class Interp:
             return
         self.C("c13_flags")
         for key, m in zip(keys, box.msgs):
+            if m.mh_amb:
+                continue
             inseq = {n for n, v in seqs.items() if key in v}
             fl = set()
             if "unseen" not in inseq:
@@ -1477,6 +1487,8 @@ class Interp:
             new_keys.append(key)
             box.msgs.append(MMsg(None, tok, frozenset() if unseen else frozenset({"\\seen"}), date + i))
             box.msgs[-1].born = self.loop.time()
+            if unseen and op.get("split"):
+                box.msgs[-1].amb = box.msgs[-1].mh_amb = True
         self.env.fired("delivery")
         if unseen:
             if op.get("split"):
